@@ -569,6 +569,28 @@ def _converters(ctx: Ctx):
                   rule="C03-R9")
     else:
         vname = reads[0].ast.targets[0].id if isinstance(reads[0].ast.targets[0], ast.Name) else None
+        # the scalar / list decision and the encoding are made on the attribute's value as it is:
+        # nothing re-binds the local between the read and the use (a coercion - tuple to list, str to
+        # bytes, int() - changes what valid scalar values such as the (family, address) pair of an
+        # Address AVP mean)
+        ctx.inst("generate_avps_from_defs:value-as-stored", rule="C03-R9")
+        for d in A.walk_no_nested(gen.node):
+            tg = []
+            if isinstance(d, (ast.Assign, ast.AnnAssign, ast.AugAssign)):
+                tg = A.store_targets(d)
+            elif isinstance(d, ast.NamedExpr):
+                tg = [d.target]
+            if vname and any(isinstance(t, ast.Name) and t.id == vname for t in tg) \
+                    and d is not reads[0].ast and not (
+                        isinstance(getattr(d, "value", None), ast.Call) and A.call_name(d.value) == "getattr"
+                        and ast.unparse(d.value.args[1]) == f"{loopvar}.attr_name"):
+                ctx.fail("generate_avps_from_defs:value-as-stored", gen.loc(d),
+                         f"the attribute value is re-bound before it is encoded (`{ast.unparse(d)[:80]}`): "
+                         f"the list/scalar decision no longer sees the value the attribute holds - a scalar "
+                         f"Address attribute holding its (family, address) pair, as every decoded one does, "
+                         f"is taken for a list of two values and cannot be re-encoded", rule="C03-R9",
+                         expected=f"{vname} = getattr(obj, {loopvar}.attr_name) only",
+                         observed=ast.unparse(d)[:120])
         goals = [n for n in gg.nodes if n.has_call(lambda nm, c: nm.endswith(".append") or nm.endswith(".extend"))]
         goals += [n for n in gg.nodes if n.kind == "iter" and vname and ast.unparse(n.ast.iter) == vname]
         rr = gg.reach([d for l, d in reads[0].succ if l != "exc"], blocked=goals, skip_labels=("exc",))
@@ -652,6 +674,57 @@ def _converters(ctx: Ctx):
         ctx.fail("assign_attr_from_defs:additional", asg.loc(),
                  "undeclared AVPs are not kept in additional_avps/_additional_avps",
                  rule="C03-R9")
+    # a declared AVP becomes its attribute whatever it carries: the statements that put an AVP
+    # among the additional ones run only when its key is NOT declared (no second condition - on
+    # the payload, the value, the flags - sends a declared AVP there or past every store)
+    ctx.inst("assign_attr_from_defs:declared-avp-is-converted", rule="C03-R9")
+    from ..atoms import Atomizer, must_facts
+    ga_ = cfg_of(asg, inline=False)
+    at_ = Atomizer(model, asg.module, None)
+    memb = [n for n in ga_.nodes if n.kind == "test" and any(
+        isinstance(x, ast.Compare) and len(x.ops) == 1 and isinstance(x.ops[0], (ast.In, ast.NotIn))
+        and "avp_def" in A.resolve_local_chain(asg.node, x.comparators[0]) for x in ast.walk(n.ast))]
+    keyname = None
+    for n in memb:
+        for x in ast.walk(n.ast):
+            if isinstance(x, ast.Compare) and isinstance(x.ops[0], (ast.In, ast.NotIn)) \
+                    and isinstance(x.left, ast.Name) and isinstance(x.comparators[0], ast.Name):
+                keyname = (x.left.id, x.comparators[0].id)
+    if keyname is None:
+        ctx.error("assign_attr_from_defs: membership test of the AVP key in the definition table not found",
+                  rule="C03-R9")
+    else:
+        addl = [n for n in ga_.nodes if n.kind == "stmt" and "additional_avps" in ast.unparse(n.ast)
+                and n.has_call(lambda nm, c: nm.endswith(".append"))]
+        for n in addl:
+            fs = must_facts(ga_, at_, n)
+            if not any(f_[0] == keyname[0] and f_[1] == "in-expr" and f_[2] == keyname[1] and f_[3] is False
+                       for f_ in fs):
+                ctx.fail("assign_attr_from_defs:declared-avp-is-converted", ga_.loc(n),
+                         f"an AVP can be put among the additional AVPs although its key is declared "
+                         f"(`{keyname[0]} in {keyname[1]}` is not known to be false here): a declared AVP "
+                         f"that fails the extra condition - e.g. one with an empty payload, the valid "
+                         f"encoding of '' / b'' / an empty group - decodes to None in its attribute, and "
+                         f"encode-decode-encode does not reproduce the message", rule="C03-R9",
+                         expected="additional_avps.append only under `key not in needed`",
+                         observed=str(sorted(map(str, fs)))[:200])
+        # and on the declared side every path stores: from the true edge of the membership test
+        # back to the loop head there is a setattr / append on every path
+        stores_ = [n for n in ga_.nodes if n.kind == "stmt" and n.has_call(
+            lambda nm, c: nm == "setattr" or nm.endswith(".append"))]
+        for t in memb:
+            if not isinstance(t.ast, ast.Compare):
+                continue        # a compound test: the first half of the rule speaks about it
+            lab = "T" if isinstance(t.ast.ops[0], ast.In) else "F"
+            tsucc = [d for l, d in t.succ if l == lab]
+            if tsucc:
+                rr = ga_.reach(tsucc, blocked=stores_, skip_labels=("exc",))
+                heads_ = [n for n in ga_.nodes if n.kind == "iter"]
+                if any(h in rr for h in heads_) or ga_.exit in rr:
+                    ctx.fail("assign_attr_from_defs:declared-avp-is-converted#stored", ga_.loc(t),
+                             "a declared AVP can be passed over without a store into its attribute "
+                             "(a path from the membership test back to the loop avoids every setattr/append)",
+                             rule="C03-R9")
     # the list that receives undeclared AVPs is selected by presence, not by truthiness
     ctx.inst("assign_attr_from_defs:additional-selected-by-presence", rule="C03-R9")
     for n in ast.walk(asg.node):
@@ -730,6 +803,37 @@ def _undefined_message(ctx: Ctx):
     if pn is None or av is None or pi is None:
         ctx.error("UndefinedMessage helper methods not found", rule="C03-R10")
         return
+    # the containers of an untyped command own no attribute that bears the (normalised) name of a
+    # dictionary AVP: `_assign_attr_values` asks hasattr(parent, name) to tell a repeated AVP from a
+    # first one, so a bookkeeping attribute of that name turns the received value into the second
+    # element of a list (e.g. `vendor_id` next to the Vendor-Id member of a group)
+    from ..tables import extract_dictionary
+    derived = {e.name.replace("-", "_").lower() for e in extract_dictionary(model).all_entries
+               if isinstance(e.name, str)}
+    for cn in ("UndefinedMessage", "UndefinedGroupedAvp"):
+        ci0 = model.cls("message._base", cn)
+        own: dict[str, ast.AST] = {}
+        for ci_ in model.mro(ci0):
+            if not hasattr(ci_, "all_funcs"):
+                continue
+            for k in list(ci_.methods) + list(ci_.setters):
+                own.setdefault(k, ci_.node)
+            for k, v_ in list(ci_.class_assigns.items()) + list(ci_.annotations.items()):
+                own.setdefault(k, v_)
+            for f_ in ci_.all_funcs:
+                for n in ast.walk(f_.node):
+                    if isinstance(n, ast.Attribute) and isinstance(n.ctx, ast.Store) \
+                            and isinstance(n.value, ast.Name) and n.value.id == "self":
+                        own.setdefault(n.attr, n)
+        ctx.inst(f"{cn}:own-attributes-are-no-avp-names", rule="C03-R10",
+                 sample={"own": sorted(own), "avp_names": len(derived)})
+        for k in sorted(set(own) & derived):
+            ctx.fail(f"{cn}:own-attributes-are-no-avp-names", ci0.loc(own[k]) if hasattr(own[k], "lineno") else ci0.loc(),
+                     f"{cn} itself defines `{k}`, which is also the attribute name of the dictionary AVP "
+                     f"{k.replace('_', '-')}: for a command without a python class the received "
+                     f"value is appended to the container's own attribute (`x.{k}` becomes "
+                     f"[own value, received value]) instead of being exposed as the AVP's value",
+                     rule="C03-R10", expected="no overlap", observed=k)
     ctx.inst("UndefinedMessage._produce_attr_name", rule="C03-R10")
     rets = [n for n in ast.walk(pn.node) if isinstance(n, ast.Return)]
     chain = A.resolve_local_chain(pn.node, rets[-1].value) if rets else ""
